@@ -82,6 +82,10 @@ HarmlessBeforeSetup == err = "none"
 OverrideApplied == (pc \in {"body", "exit"} /\ over # NoLevel /\ setup) => level = over
 TypeOK == level \in Levels \cup {NoLevel, 20} /\ (setup = (level # NoLevel))
 
+\* every step of this model, projected on the variables without the ghost history, is a step (or a stutter) of LoggerInd,
+\* the typed module on which Apalache proves the inductive invariant for histories of ANY length
+LI == INSTANCE LoggerInd
+RefinesInd == [][LI!Next]_<<setup, level, disabled, hasFile, explicit, pc, saved, over, outcome>>
 W_RaiseRestores == ~(pc = "idle" /\ Len(hist) > 0 /\ hist[Len(hist)][1] = "call" /\ hist[Len(hist)][3] = "raises"
                      /\ hist[Len(hist)][2] # NoLevel /\ setup /\ hist[Len(hist)][2] # level)
 Json == INSTANCE Json
